@@ -16,5 +16,6 @@ CONSTANTS
   Alias = {}
   TrackTouch = TRUE
   MisTag = {}
+  BufOrder = "seq"
 INVARIANTS TypeOK ReadsLastCommitted ScansExactMembers ResultsIgnoreTouched OwnFamilyOnly FTFirstTouch FTBufferedUntouched
 CHECK_DEADLOCK FALSE
